@@ -12,11 +12,13 @@
 package main
 
 import (
+	"bufio"
 	"bytes"
 	"crypto/elliptic"
 	"crypto/sha256"
 	"encoding/binary"
 	"fmt"
+	"io"
 	"math/big"
 	"os"
 	"strings"
@@ -163,16 +165,37 @@ func whole(args []string) int {
 			continue
 		}
 		c := hxlib.GenCircuit(r, hxlib.GenOpts{MaxGates: 150, MaxIn: 8, Mix: mixes[i%4]})
+		wide := i%5 == 4
+		if wide {
+			// many input wires, so that the garbler draws kilobytes of label
+			// randomness
+			c = hxlib.GenParityCircuit(r, 260+r.Intn(500), 1+r.Intn(8))
+			o.Count("wide_input_sessions")
+		}
 		n0 := int(c.Inputs[0].Type.Bits)
 		n1 := int(c.Inputs[1].Type.Bits)
-		x := bitsToBig(randBits(r, n0))
+		xb := randBits(r, n0)
+		if wide && r.Intn(2) == 0 {
+			for j := range xb {
+				xb[j] = true
+			}
+		}
+		x := bitsToBig(xb)
 		y := bitsToBig(randBits(r, n1))
 		otName := ots[i%3]
 		gr, er := r.Fork(), r.Fork()
 		g := &hxlib.RecOT{OT: mkOT(otName, gr)}
 		e := &hxlib.RecOT{OT: mkOT(otName, er)}
 		d := hxlib.NewDuplex(r.Fork())
-		res := hxlib.RunSession(c, x, y, g, e, gr, d, 60*time.Second)
+		var randG io.Reader = gr
+		if wide {
+			// a legal io.Reader that returns short reads for large requests,
+			// as bufio.NewReader(crypto/rand.Reader) or a chunk-limited
+			// entropy device does
+			randG = bufio.NewReaderSize(gr, 4096)
+			o.Count("short_read_random_source")
+		}
+		res := hxlib.RunSession(c, x, y, g, e, randG, d, 60*time.Second)
 		d.Close()
 		desc := fmt.Sprintf("ot=%s circuit=%s x=%s y=%s", otName, hxlib.CircLine(c), x.Text(16), y.Text(16))
 		verdict := "session-failed"
